@@ -187,10 +187,19 @@ def sweep_cases():
     return cases
 
 
+def self_delete_cases():
+    """KNOWN FINDING stream: a callback deletes its own callback function (itself or a sibling
+    registration with other user data) from the list it is being dispatched from"""
+    return [["add 0 1 0 - - -", "add 0 1 1 - - -", "add 0 2 0 - - -", "beh 1 0 k del 0 1", "fire 0 6971 - - -"],
+            ["addid 0 2 0 6964", "addid 0 1 0 6964", "beh 1 0 r delid 0 1 6964", "fire 0 6971 - - 6964"],
+            ["addt 0 1 0 0", "addt 0 2 0 0", "beh 1 0 k delt 0 1", "firetimed"],
+            ["addg 1 0 0", "beh 1 0 r delg 1", "firetimed"]]
+
+
 def generate(rng, tier, override=0):
     n = override or (3000 if tier == "quick" else 60000)
     maxlen = 40 if tier == "quick" else 120
-    cases = sweep_cases()
+    cases = sweep_cases() + self_delete_cases()
     cases += [gen_case(rng, maxlen if rng.random() < 0.2 else 18) for _ in range(n)]
     return cases
 
@@ -225,15 +234,29 @@ class Ref:
         self.cnt = {}
         self.script = {}
         self.inv = []
+        self.running = None       # (list kind, conn, id, fn) of the callback being executed
+        self.self_delete = None   # list kind of the first self-delete seen (known finding)
 
     # --- registration -------------------------------------------------------------------
     @staticmethod
     def has(lst, fn, ud):
         return any(r.fn == fn and r.ud == ud for r in lst)
 
+    def note_delete(self, kind, c, i, f):
+        if self.running == (kind, c, i, f) and self.self_delete is None:
+            self.self_delete = {"h": "stanza", "i": "id", "t": "timed", "g": "global"}[kind]
+
     def act(self, t, user=True):
         """one API call (top-level op or scripted action); returns number of tokens consumed"""
         k = t[0]
+        if k == "del":
+            self.note_delete("h", int(t[1]), None, int(t[2]))
+        elif k == "delid":
+            self.note_delete("i", int(t[1]), unhx(t[3]), int(t[2]))
+        elif k == "delt":
+            self.note_delete("t", int(t[1]), None, int(t[2]))
+        elif k == "delg":
+            self.note_delete("g", None, None, int(t[1]))
         if k == "add":
             c, f, u = int(t[1]), int(t[2]), int(t[3])
             lst = self.conns[c].H
@@ -300,8 +323,15 @@ class Ref:
             i = j + 1
         self.script[(f, u)] = steps
 
-    def call(self, reg, token):
+    def call(self, reg, token, where):
         """invoke one callback: log, run its scripted API calls, return keep/remove"""
+        self.running = where + (reg.fn,)
+        try:
+            return self.call1(reg, token)
+        finally:
+            self.running = None
+
+    def call1(self, reg, token):
         self.inv.append(token)
         key = (reg.fn, reg.ud)
         k = self.cnt.get(key, 0)
@@ -341,7 +371,7 @@ class Ref:
                 continue
             if ph == "h" and not self.matches(r, name, ns, type_, children):
                 continue
-            keep = self.call(r, "s%d:%d.%d:%s" % (c, r.fn, r.ud, hx(name)))
+            keep = self.call(r, "s%d:%d.%d:%s" % (c, r.fn, r.ud, hx(name)), (ph, c, id_ if ph == "i" else None))
             if not keep:
                 if ph == "i":
                     if id_ in cn.I:
@@ -361,7 +391,7 @@ class Ref:
                 if self.now - r.last < r.period:
                     continue
                 r.last = self.now
-                if not self.call(r, "t%d:%d.%d@%d" % (c, r.fn, r.ud, self.now)):
+                if not self.call(r, "t%d:%d.%d@%d" % (c, r.fn, r.ud, self.now), ("t", c, None)):
                     cn.T = [x for x in cn.T if x is not r]
         for r in list(self.G):
             if not any(x is r for x in self.G):
@@ -369,7 +399,7 @@ class Ref:
             if self.now - r.last < r.period:
                 continue
             r.last = self.now
-            if not self.call(r, "g:%d.%d@%d" % (r.fn, r.ud, self.now)):
+            if not self.call(r, "g:%d.%d@%d" % (r.fn, r.ud, self.now), ("g", None, None)):
                 self.G = [x for x in self.G if x is not r]
 
     def op(self, line):
@@ -436,7 +466,8 @@ def py_oracle(ops, outs):
             break
         m = PAT.match(out)
         if not m:
-            fails.append((i, "unparsable-output %s" % out[:80]))
+            if i + 1 < len(outs) or out.endswith("]"):   # else: cut off by a crash (reported as such)
+                fails.append((i, "unparsable-output %s" % out[:80]))
             break
         try:
             ref.op(op)
@@ -463,11 +494,28 @@ def py_oracle(ops, outs):
     return fails
 
 
+def self_delete_kind(ops, i):
+    """does op i make a callback delete its own callback function from the list it is dispatched
+    from (known finding: the loop then reads the freed item)?"""
+    ref = Ref()
+    try:
+        for k, op in enumerate(ops[: i + 1]):
+            ref.self_delete = None
+            ref.op(op)
+    except Exception:
+        return None
+    return ref.self_delete
+
+
 def signature(case, i, what):
     w = what.split(" ")
     if w[0] == "crash":
         m = re.search(r"AddressSanitizer: ([a-z-]+)", what)
-        return "%s:crash:%s" % (ID, m.group(1) if m else "other")
+        kind = m.group(1) if m else "other"
+        sd = self_delete_kind(case.ops, i) if i < len(case.ops) else None
+        if sd and kind == "heap-use-after-free":
+            return "%s:self-delete:%s" % (ID, sd)
+        return "%s:crash:%s" % (ID, kind)
     return "%s:%s" % (ID, w[1] if w[0] == "ORACLE-FAIL" and len(w) > 1 else w[0])
 
 
